@@ -130,6 +130,8 @@ type env struct {
 	commitsInSession int  // successful non-empty commits since the store was (re)opened
 	multiWindow      bool // this session had a window in which >= 2 writers were opened
 	histLabels       map[string]bool
+
+	ps passState // operations of other actors nested at the seams of an obsolete-file pass (passnest_test.go)
 }
 
 // writer is an unfinished writer of the history.
@@ -362,6 +364,11 @@ func (e *env) hook(op, path string, before bool) {
 	e.hmu.Lock()
 	e.im.Hook(op, path, before)
 	e.hmu.Unlock()
+	if e.ps.plan != nil {
+		// an obsolete-file pass of this operation runs on the main goroutine (no kv lock is held at its
+		// listDir / removeDir seams): operations of other actors complete right here
+		e.passSeam(op, path, before)
+	}
 	if e.nestAtCreate && op == "tableCreate" && !before {
 		// the writer of the operation in flight has just created its table file (no kv lock is held
 		// here): another job of the family runs its obsolete-file pass right now, as the trailing
@@ -906,34 +913,8 @@ func (e *env) drainPending() {
 	}
 }
 
-func (e *env) opCompact() {
-	name := e.pickFamily()
-	force := rapid.Bool().Draw(e.t, "force")
-	e.begin("compact", name, fmt.Sprintf("force=%v", force))
-	ran, err := kv.VerifCompactSync(e.fams[name], force)
-	e.end()
-	if err != nil {
-		e.fatalf("compaction of family %s failed: %v", name, err)
-	}
-	if ran {
-		e.classes["compact-ran"]++
-		e.commitsInSession++
-		if len(e.pending) > 0 {
-			e.classes["compact-ran-with-unfinished-writers"]++
-		}
-	}
-}
-
-func (e *env) opCleanup() {
-	name := e.pickFamily()
-	e.begin("deleteObsolete", name, "")
-	kv.VerifDeleteObsoleteFiles(e.fams[name])
-	kv.VerifCacheCleanup(e.store)
-	e.end()
-	if len(e.pending) > 0 {
-		e.classes["deleteObsolete-with-unfinished-writers"]++
-	}
-}
+// opCompact and opCleanup (operations that run an obsolete-file pass on the main goroutine) live in
+// passnest_test.go.
 
 // opStoreCompact is one tick of the periodic store housekeeping (kv.JobScheduler -> Store.compact):
 // every family that wants a compaction gets one, then the reader cache is cleaned. Production starts
@@ -1109,12 +1090,19 @@ func (e *env) recoverImage(p crash.Point, deep bool) {
 		if err != nil {
 			e.fatalf("image %s: family %s unreadable after recovery: %v", p, n, err)
 		}
+		nestedCommits := false
+		if len(e.ps.mids[p.OpIdx]) > 0 && existedBefore {
+			// commits completed inside this operation (which itself leaves content alone): the image shows the
+			// state after the last of them that had returned, or the state after the one in flight
+			nestedCommits = true
+			bfm, afm, _ = e.legalStates(p.OpIdx, n, p.Seq, bfm)
+		}
 		okAfter := matches(afm, content, seqs)
 		okBefore := existedBefore && matches(bfm, content, seqs)
 		if !existedBefore {
 			okBefore = len(content) == 0 && len(seqs) == 0
 		}
-		if op.Family != n && existedBefore {
+		if op.Family != n && existedBefore && !nestedCommits {
 			// an operation on another family must not be visible here at all
 			if !okBefore {
 				e.fatalf("image %s: family %s (not touched by the operation in flight) differs from committed state:%s seqs=%v want=%v",
@@ -1228,6 +1216,16 @@ func (e *env) crashCheck(final bool) {
 		// quick tier: a generated sample of the pending images
 		n := 10
 		seen := map[int]bool{}
+		if pref := e.preferredImages(pts); len(pref) > 0 {
+			// up to 4 of the sample are images taken inside or after a commit nested in an obsolete-file pass
+			for k := 0; k < 4 && k < len(pref); k++ {
+				i := pref[rapid.IntRange(0, len(pref)-1).Draw(e.t, "nestedCommitImage")]
+				if !seen[i] {
+					seen[i] = true
+					chosen = append(chosen, i)
+				}
+			}
+		}
 		for len(chosen) < n {
 			i := rapid.IntRange(0, len(pts)-1).Draw(e.t, "image")
 			if !seen[i] {
@@ -1252,6 +1250,7 @@ func (e *env) crashCheck(final bool) {
 		}
 		e.classes["img-"+p.OpName]++
 		e.classes["fsop-"+p.FSOp]++
+		e.classifyPassImage(p)
 		if p.OpIdx < len(e.pendingAt) && (e.pendingAt[p.OpIdx] > 0 || p.OpName == "openWriter") {
 			e.classes["img-with-unfinished-writers"]++
 			e.histLabels["hist-crash-image-with-unfinished-writers"] = true
@@ -1282,7 +1281,11 @@ func jsonString(v any) (string, error) {
 
 // ---- property --------------------------------------------------------------------------------
 
-func runHistory(t *rapid.T, thorough bool) {
+func runHistory(t *rapid.T, thorough bool) { runHistoryMode(t, thorough, "TestCrashRecovery", false) }
+
+// runHistoryMode: focus=true is TestCleanupInterleavings (same operations and oracles, action menu and
+// image sample biased towards obsolete-file passes with nested operations of other actors).
+func runHistoryMode(t *rapid.T, thorough bool, group string, focus bool) {
 	kvsim.Register()
 	dir, err := os.MkdirTemp("", "c01-")
 	if err != nil {
@@ -1292,6 +1295,7 @@ func runHistory(t *rapid.T, thorough bool) {
 		t: t, dir: dir, storePath: filepath.Join(dir, "store"),
 		fams: map[string]kv.Family{}, cur: model{}, classes: map[string]int{}, thorough: thorough,
 		universe: keyUniverse, histLabels: map[string]bool{},
+		ps: passState{mids: map[int][]midRec{}, focus: focus, group: group, lastSeq: -1},
 	}
 	e.opt = kv.StoreOption{Levels: rapid.IntRange(2, 3).Draw(t, "levels"), TTL: ltoml.Duration(time.Hour)}
 	e.famOpt = kv.FamilyOption{
@@ -1300,6 +1304,7 @@ func runHistory(t *rapid.T, thorough bool) {
 		MaxFileSize:      rapid.SampledFrom([]uint32{0, 8, 24, 64, 1 << 20}).Draw(t, "maxFileSize"),
 	}
 	e.im = &crash.Imager{Root: e.storePath, OutDir: filepath.Join(dir, "img")}
+	e.im.OnPoint = func(p crash.Point) { e.ps.lastSeq = p.Seq }
 	if !thorough {
 		e.im.Want = func(p crash.Point) bool { return p.Seq%imageStride == e.phase }
 	}
@@ -1349,7 +1354,7 @@ func runHistory(t *rapid.T, thorough bool) {
 	e.end()
 	e.opCreateFamily()
 
-	t.Repeat(map[string]func(*rapid.T){
+	actions := map[string]func(*rapid.T){
 		"createFamily": func(t *rapid.T) { e.t = t; e.opCreateFamily() },
 		"flush":        func(t *rapid.T) { e.t = t; e.opFlush() },
 		"flush2":       func(t *rapid.T) { e.t = t; e.opFlush() },
@@ -1367,7 +1372,11 @@ func runHistory(t *rapid.T, thorough bool) {
 			e.crashCheck(false)
 		},
 		"": func(t *rapid.T) { e.t = t; e.checkLive() },
-	})
+	}
+	if focus {
+		actions = e.focusActions()
+	}
+	t.Repeat(actions)
 	e.t = t
 	e.drainPending()
 	e.crashCheck(true)
@@ -1380,12 +1389,17 @@ func runHistory(t *rapid.T, thorough bool) {
 	}
 	sort.Strings(classes)
 	for c, n := range e.classes {
-		ev.Class("TestCrashRecovery", c, n)
+		ev.Class(group, c, n)
 	}
 	nt := e.insideCommit > 0
-	ev.Case("TestCrashRecovery", canon, nt, classes, map[string]any{
+	if focus {
+		// non-trivial: a commit completed inside an obsolete-file pass and an image of the history was recovered inside an operation
+		nt = nt && e.ps.commitsInPass > 0
+	}
+	ev.Case(group, canon, nt, classes, map[string]any{
 		"levels": e.opt.Levels, "compactThreshold": e.famOpt.CompactThreshold, "maxFileSize": e.famOpt.MaxFileSize,
 		"history": e.ops, "images_recovered": e.imagesChecked, "images_inside_commit": e.insideCommit,
+		"commits_inside_obsolete_pass": e.ps.commitsInPass, "images_in_or_after_nested_commit": e.ps.imagesInMid,
 	})
 	// every recovered image inside a commit is a distinct non-trivial crash point of this history
 	for _, h := range e.ntHashes {
@@ -1396,4 +1410,12 @@ func runHistory(t *rapid.T, thorough bool) {
 func TestCrashRecovery(t *testing.T) {
 	thorough := os.Getenv("VERIF_TIER") == "thorough"
 	rapid.Check(t, func(t *rapid.T) { runHistory(t, thorough) })
+}
+
+// TestCleanupInterleavings: histories in which operations of other actors (commit of a prepared
+// writer, flush, new writer, another cleanup, a compaction job) complete at the listDir / removeDir
+// seams of an obsolete-file pass (bare pass, trailing pass of a compaction job); see passnest_test.go.
+func TestCleanupInterleavings(t *testing.T) {
+	thorough := os.Getenv("VERIF_TIER") == "thorough"
+	rapid.Check(t, func(t *rapid.T) { runHistoryMode(t, thorough, "TestCleanupInterleavings", true) })
 }
